@@ -65,7 +65,19 @@ def interpret_block(prog, f, block):
     fr.module = f.module
     fr.fnode = f.node
     params = [a.arg for a in f.node.args.args]
-    for nme in free_names(block):
+    # local helper functions (closures over the bookkeeping state) are
+    # defined first, so that the block's calls to them are seen through
+    local_defs = [st for st in f.node.body if isinstance(st, ast.FunctionDef)]
+    names = free_names(block)
+    for d in local_defs:
+        own = set(a.arg for a in d.args.args)
+        for nme in free_names(d.body):
+            if nme not in own and nme not in names:
+                names.append(nme)
+    defined = set(d.name for d in local_defs)
+    for nme in names:
+        if nme in defined:
+            continue
         if nme in params:
             fr.vars[nme] = Sym(nme, ('inst', prog.cls('graph.DiGraph')))
         elif nme in ('min', 'max', 'len', 'iter', 'next', 'set', 'list',
@@ -74,6 +86,8 @@ def interpret_block(prog, f, block):
         else:
             fr.vars[nme] = Sym(nme)
     fr.vars['$yield'] = path.alloc('list')
+    for d in local_defs:
+        I.exec_stmt(d, fo.oid, path)
     I.stack.append(f)
     try:
         res = I.exec_block(block, fo.oid, path)
@@ -135,9 +149,30 @@ def rule_scc(prog):
                 terms = list(a)
         mono = terms is not None and _item(L, v) in terms
         others = [t for t in (terms or []) if t != _item(L, v)]
+        if terms is None:
+            # `if cand < lowlink[v]: lowlink[v] = cand`
+            for (c, pol) in e.pc:
+                if isinstance(c, App) and c.op == 'cmp':
+                    o, a, b = c.args[0].v, c.args[1], c.args[2]
+                    if not pol:
+                        o = {'>': '<=', '<': '>=', '>=': '<',
+                             '<=': '>'}.get(o, o)
+                    if (o in ('<', '<=') and a == val and
+                            b == _item(L, v)) or \
+                            (o in ('>', '>=') and b == val and
+                             a == _item(L, v)):
+                        mono = True
+                        others = [val]
         w = e.loops[-1].var
-        toward = len(others) == 1 and isinstance(others[0], App) and \
-            others[0].op == 'item' and others[0].args[1] == w
+
+        def leaves(t):
+            if isinstance(t, App) and t.op == 'ite':
+                return leaves(t.args[1]) + leaves(t.args[2])
+            return [t]
+        lv = [x for t in others for x in leaves(t)]
+        toward = len(others) == 1 and bool(lv) and all(
+            isinstance(x, App) and x.op == 'item' and x.args[1] == w
+            for x in lv)
         guard = [c for (c, pol) in e.pc if not pol and isinstance(c, App) and
                  c.op == 'in' and c.args[0] == w]
         if guard and closed is None:
@@ -185,7 +220,7 @@ def rule_scc(prog):
                 'a root and nodes are missing from the output' %
                 ast.unparse(e.node)[:80],
                 expected='w not in the set of closed nodes'))
-    floor('R-SCC-1', 'lowlink updates', len(r1.instances), 2)
+    floor('R-SCC-1', 'lowlink updates', len(r1.instances), 1)
     # emission vs push
     nem = npush = 0
     for (p, s) in res:
